@@ -434,7 +434,7 @@ def h_linesearch_accept(E, cfg):
         return
     backend.configure(solve="havoc")
     X = E.real("X", shp)
-    E.assume(E.Or([E.Not(E.eq(x, 0)) for x in np.asarray(X, dtype=object).ravel()]))
+    E.assume(E.Or([E.nonzero(x) for x in np.asarray(X, dtype=object).ravel()]))
     F0 = [E.real(f"F{k}", (n, R)) for k, n in enumerate(shp)]
     res, errs = parafac(np.array(X), R, n_iter_max=7, init=(None, [np.array(f) for f in F0]), tol=0, return_errors=True, linesearch=True)
     E.prove("seven_errors", len(errs) == 7)
